@@ -47,6 +47,33 @@ def nontrivial(mode, case):
     return case['expect']['n'] >= 2
 
 
+def attach_twins(cases):
+    """The SAME function object can be looked at with both binding levels:
+    as a function found on a class (its first parameter receives self) and
+    as a plain function attribute of an instance (no parameter is implied).
+    Each reading is a case of the grid of its own; the replay verifies the
+    function both ways, in sequence, and needs the other case's expectation
+    (what was concluded about a function one way must not leak into the
+    other)."""
+    def key(isig, msig, kind, tent):
+        return json.dumps([isig, msig, kind, tent], sort_keys=True)
+    index = {key(c['isig'], c['msig'], c['kind'], c['tent']): c
+             for c in cases}
+    for c in cases:
+        m = dict(c['msig'])
+        if c['kind'] == 'class':
+            m['req'] += 1
+            other = 'func'
+        elif c['kind'] == 'func' and m['req'] >= 1:
+            m['req'] -= 1
+            other = 'class'
+        else:
+            continue
+        t = index.get(key(c['isig'], m, other, c['tent']))
+        if t is not None:
+            c['twin'] = {'kind': other, 'expect': t['expect']}
+
+
 def parallel(thunks):
     out = [None] * len(thunks)
     errs = []
@@ -192,6 +219,8 @@ def main(pid, tier):
                                      % (len(cases), res.distinct))
             v.cov['distinct_nontrivial'] += sum(
                 1 for c in cases if nontrivial(mode, c))
+            if mode == 'pairs':
+                attach_twins(cases)
             # ---- replay every case under both implementations
             jobs = []
             for impl in ('c', 'py'):
